@@ -19,3 +19,18 @@ Fixpoint gen_dt_bump (t : Z) (toks : list (Z * unit_)) : option Z :=
   | tok :: rest => match gen_bump1 t tok with Some t' => gen_dt_bump t' rest | None => None end
   end.
 Definition run_gen_dt_bump (c : Z * list (Z * unit_)) : J := JO JZ (gen_dt_bump (fst c) (snd c)).
+
+(* ---- C04 ---- *)
+From PB Require Import model.M_dtparse.
+Definition run_dt (s : spelling) : J := JO JZ (dt_model s).
+Definition run_dt_gen (s : spelling) : J :=
+  match s with
+  | SpTuple y m d => JO JZ (Gen_dates.u_ymd y m d)
+  | SpNum n => JO JZ (Gen_dates.num2dt 0 n)
+  | SpYM y m => match Gen_dates.ym y m with Some (y', m') => JO JZ (mk_datetime y' m' 1) | None => JNone end
+  | _ => run_dt s
+  end.
+Definition run_calendar (n : Z) : J :=
+  let '(y, m, d) := ymd_of_ord n in JL [JZ y; JZ m; JZ d; JZ (weekday_ord n); JZ (ord_of_ymd y m d)].
+Definition run_ymd (t : Z) : J := JZ (ymd_model t).
+Definition run_dt2str (t : Z) : J := JO JZ (dt_model (dt2str_model t)).
